@@ -243,6 +243,7 @@ func init() {
 	reviewedPanics["fdo/cose.ccmAEAD.Open|unimplemented"] = "AES-CCM is registered as an encrypt algorithm but no registered cipher suite names it (C09.cipher-registry enumerates the suites), so no session can select it"
 	reviewedPanics["fdo/cose.ccmAEAD.Seal|unimplemented"] = reviewedPanics["fdo/cose.ccmAEAD.Open|unimplemented"]
 	reviewedPanics["fdo/cose.ccmAEAD.tag|unimplemented"] = reviewedPanics["fdo/cose.ccmAEAD.Open|unimplemented"]
+	reviewedPanics["fdo/http/internal/httputil.ResponseRecorder.Result$1|unreachable"] = "tinygo build only: strconv.ParseUint with bitSize 63 cannot return a value above MaxInt64"
 	reviewedPanics["fdo/cose.pad|pad size miscalculated"] = "padSize = blockSize - len%blockSize lies in 1..blockSize"
 }
 
@@ -1363,6 +1364,7 @@ var reviewedBounds = map[string]string{
 	"fdo/kex.ecdhSymmetricKey":                          "the KDF output has exactly sekSize+svkSize bytes (requested length), sizes from the registry",
 	"fdo/kex.oaepSymmetricKey":                          "the KDF output has exactly sekSize+svkSize bytes (requested length), sizes from the registry",
 	"fdo/kex.ecdhParam.MarshalBinary":                   "encodes this side's own freshly generated uncompressed point (1+2n bytes)",
+	"fdo/fsim.Upload.upload":                            "slices its own 1014-byte buffer by min(1014, remaining file size) and by the byte count Read returned for that slice (local file, not peer data)",
 	"fdo/protocol.PublicKey.parseX5Chain":               "range index over certs into a slice made with len(certs) elements (the constant-index uses are discharged by the len(certs)==0 guard)",
 }
 
